@@ -497,6 +497,8 @@ func cmdGen(args []string) {
 			cfg.BigLists = true
 		case "richargs":
 			cfg.RichArgs = true
+		case "rootnode":
+			cfg.RootNode = true
 		case "nomut":
 			cfg.Mutations = false
 		default:
